@@ -82,7 +82,7 @@ def _check_logs(sx, ids, sent, expected, fs):
         if any(len(f) == 0 for _, f in sent):
             continue  # the text formats cannot express an empty frame
         got = _read_log(ids, _render(sent, fmt))
-        sx.require(got == exp, f"log-format-{fmt}-gives-same-telegrams")
+        sx.require(got == exp, f"witness:log-format-{fmt}-gives-same-telegrams")
 
 
 def run_single(sx, cfg, env):
